@@ -1,6 +1,6 @@
 (** * C15 - canary nodes are valid, distinct, stable and as many as requested.
     Property theorems only; each is closed by [exact] of a lemma of [Proofs/]. *)
-From Coq Require Import List ZArith Bool Sorting.Sorted.
+From Coq Require Import List ZArith NArith Bool Sorting.Sorted.
 From EDS Require Import Model.Objects Model.Fitness Model.PodSpec Model.Default Model.Canary Model.EdsLogic Model.EdsReconcile
      Proofs.Lists Proofs.RollingProofs Proofs.EdsInv Proofs.C15Proofs Proofs.C15Sync.
 Import ListNotations.
@@ -63,6 +63,19 @@ Theorem C15_candidates_by_restarts : forall pods nodes,
   Sorted (le_key (fun n => node_restarts pods (n_name n))) (sort_by (fun n => node_restarts pods (n_name n)) nodes).
 Proof. exact candidates_by_restarts. Qed.
 Print Assumptions C15_candidates_by_restarts.
+
+(** "additional ones are taken preferring nodes whose daemon pods restarted least": without anti-affinity keys every
+    node ADDED by a selection has no more restarts than any valid (listed, fit) candidate that was left out *)
+Theorem C15_least_restarts : forall t nb nodes pods previous a m,
+  let final := fst (select_nodes t [] nb nodes pods previous) in
+  let still_valid := filter (fun nn => match find (fun n => N.eqb (n_name n) nn)
+                                                  (sort_by (fun n => node_restarts pods (n_name n)) nodes) with
+                                       | Some n => fit t n | None => false end) previous in
+  In a final -> ~ In a still_valid ->
+  In m nodes -> fit t m = true -> ~ In (n_name m) final ->
+  node_restarts pods a <= node_restarts pods (n_name m).
+Proof. exact select_least_restarts. Qed.
+Print Assumptions C15_least_restarts.
 
 (** a percentage of replicas resolves rounding up (against status.desired of the ExtendedDaemonSet,
     after the repair of D7) *)
